@@ -28,6 +28,7 @@ pub fn run_paused<F: Future>(f: F) -> F::Output {
     own_select();
     let rt = tokio::runtime::Builder::new_current_thread()
         .enable_all()
+        .event_interval(1)
         .start_paused(true)
         .build()
         .expect("runtime");
@@ -42,6 +43,7 @@ pub fn run_real<F: Future>(f: F) -> F::Output {
     own_select();
     let rt = tokio::runtime::Builder::new_current_thread()
         .enable_all()
+        .event_interval(1)
         .build()
         .expect("runtime");
     let out = rt.block_on(f);
